@@ -34,8 +34,8 @@ OPEN_STATEMENTS = [
     'bct_parity_matrix, bct_interleaved_matrix, bct_checksum_matrix (parity sector); bct_jw_eq_jw: same matrix elements as the '
     'C04 Model of jordan_wigner; bk_encoder_rows, bk_code_encoding_is_spec, bct_bk_eq_bk: same matrix elements between '
     'encoded states as the C05 Model of bravyi_kitaev); the structural hypotheses hold for every constructor and are closed under c + d and k * c '
-    '(constructors_struct, struct_closed), with soundness on product domains (bct_append_sound, bct_int_mul_sound); not proved: '
-    'the structural hypotheses for concatenation c * d (double_decoding), the regime where __isub__ / += / compress() drop a non-zero coefficient below '
+    'and concatenation c * d (constructors_struct, struct_closed, struct_closed_concat), with soundness for derived codes '
+    '(bct_append_sound, bct_int_mul_sound, bct_concat_sound); not proved: the regime where __isub__ / += / compress() drop a non-zero coefficient below '
     '1e-8, and equality of the term dictionaries (not only of the operators) with jordan_wigner / bravyi_kitaev (covered by the transform '
     'stream: Model correspondence + Spec oracle on every encoded domain state + term-for-term comparison with jordan_wigner / '
     'bravyi_kitaev)',
